@@ -122,6 +122,28 @@ def run(ctx):
               f'model interpolation options are method={kvtxt("method")}, '
               f'extrapolate={kvtxt("extrapolate")}, grid={kvtxt("grid")}, '
               f'xi={kvtxt("xi")}', ctx.where(mm, d[0]))
+    # order in the options literal: documented defaults before the caller's
+    # options (which override them), the two grids after (forced)
+    pos = {(k.value if isinstance(k, ast.Constant) else '**'): i
+           for i, k in enumerate(d[0].keys) if k is None or
+           isinstance(k, ast.Constant)}
+    star = [i for i, k in enumerate(d[0].keys) if k is None]
+    doc = ast.get_docstring(fn) or ''
+    import re as _re
+    documented = set(_re.findall(r"``(\w+)=", doc))
+    ctx.anchor({'method', 'log', 'extrapolate'} <= documented,
+               'documented defaults of interpolate_to_grid')
+    ok = len(star) == 1 and all(pos.get(k, 99) < star[0]
+                                for k in documented) and \
+        all(pos.get(k, -1) > star[0] for k in ('grid', 'xi'))
+    ctx.check('C15.VA1.options', 'interpolate_to_grid: defaults < caller '
+              'options < grids', ok, 'the documented defaults '
+              f'{sorted(documented)} must precede **options in the literal '
+              '(so that the caller can override them) and grid/xi must '
+              'follow it; an explicit option of the caller is ignored '
+              'otherwise', ctx.where(mm, d[0]),
+              sample={'order': [ast.unparse(k) if k is not None else '**'
+                                for k in d[0].keys]})
     require(ctx, 'C15.VA1.options', 'interpolate_to_grid identity shortcut',
             f'if {ps[1]} == self.grid:\n    return self', fn,
             'interpolation to the own grid is not the identity',
